@@ -136,12 +136,16 @@ func checkC09(c FmtCase) Outcome {
 	content := c.Content()
 	sb := cli.NewSandbox("c09")
 	defer sb.Close()
-	tree := cli.Tree{"regex-assembly/932100.ra": content, "rules/": ""}
+	tree := cli.Tree{c.FileRel(): content, "rules/": ""}
 	for n, v := range c.Files {
 		tree["regex-assembly/"+n] = v
 	}
+	c.Sibling(tree)
+	if c.Target != "" {
+		out.Labels = append(out.Labels, "target:"+c.Target)
+	}
 	// a second tree for the --all form: the file under test plus properly formatted files that sort after it
-	allTree := cli.Tree{"regex-assembly/932100.ra": content, "regex-assembly/942100.ra": raHeader + "\nfoo\n", "regex-assembly/include/zz.ra": raHeader + "\nbar\n", "rules/": ""}
+	allTree := cli.Tree{c.FileRel(): content, "regex-assembly/942100.ra": raHeader + "\nfoo\n", "regex-assembly/include/zz.ra": raHeader + "\nbar\n", "rules/": ""}
 	allRoot := sb.Path("crsall")
 	if err := allTree.Write(allRoot); err != nil {
 		panic(err)
@@ -151,7 +155,7 @@ func checkC09(c FmtCase) Outcome {
 		panic(err)
 	}
 	cli.Freeze(root)
-	file := sb.Path("crs/regex-assembly/932100.ra")
+	file := sb.Path("crs/" + c.FileRel())
 	run := func(args ...string) fmtRun {
 		r := cli.Run(cli.Opt{Dir: sb.Root, Timeout: 30 * time.Second}, append([]string{"-d", root, "regex", "format"}, args...)...)
 		return fmtRun{r.Exit, r.Stdout, r.Stderr}
@@ -160,13 +164,13 @@ func checkC09(c FmtCase) Outcome {
 	out.Detail["original"] = content
 
 	before := cli.Snap(root)
-	chk0 := run("--check", "932100")
+	chk0 := run("--check", c.Arg())
 	if d := cli.Diff(before, cli.Snap(root), true); len(d) > 0 {
 		out.Detail["changed"] = d
 		out.Violation = fmt.Sprintf("format --check modified the tree: %v", d)
 		return out
 	}
-	f1r := run("932100")
+	f1r := run(c.Arg())
 	f1 := read()
 	out.Detail["format1"], out.Detail["format1_exit"] = f1, f1r.Exit
 	if f1r.Exit != 0 {
@@ -192,14 +196,14 @@ func checkC09(c FmtCase) Outcome {
 	}
 	cli.Freeze(root)
 	snap1 := cli.Snap(root)
-	chk1 := run("--check", "932100")
+	chk1 := run("--check", c.Arg())
 	if d := cli.Diff(snap1, cli.Snap(root), true); len(d) > 0 {
 		out.Violation = fmt.Sprintf("format --check modified the tree: %v", d)
 		return out
 	}
-	f2r := run("932100")
+	f2r := run(c.Arg())
 	f2 := read()
-	f3r := run("932100")
+	f3r := run(c.Arg())
 	f3 := read()
 	out.Detail["format2"], out.Detail["format3"] = f2, f3
 	if f2r.Exit != 0 || f3r.Exit != 0 {
@@ -213,6 +217,12 @@ func checkC09(c FmtCase) Outcome {
 	if f3 != f2 {
 		out.Violation = "format³ ≠ format²"
 		return out
+	}
+	if strings.Contains(c.Arg(), "-chain") {
+		if b, _ := os.ReadFile(sb.Path("crs/regex-assembly/932100.ra")); string(b) != fmtSibling {
+			out.Violation = "format " + c.Arg() + " rewrote the chain starter's file 932100.ra"
+			return out
+		}
 	}
 	lint := lintMayApply(content)
 	if lint {
